@@ -16,6 +16,7 @@ import (
 	"github.com/arloliu/go-secs/v2/verifsim/core"
 	"github.com/arloliu/go-secs/v2/verifsim/refhsms"
 	"github.com/arloliu/go-secs/v2/verifsim/rig"
+	"github.com/arloliu/go-secs/v2/verifsim/simhook"
 	"github.com/arloliu/go-secs/v2/verifsim/simnet"
 )
 
@@ -105,6 +106,7 @@ type harness struct {
 	whens          []*when
 	appCloseAt     map[int]time.Duration
 	randomStalls   bool
+	withholdGen    int
 	stalls         [][2]time.Duration
 	maxStall       time.Duration
 	inCall         map[string]bool
@@ -362,6 +364,21 @@ func (h *harness) planGen(k, after int) {
 			return
 		}
 		p := h.sc.Plans[k]
+		if h.randomStalls && p.Replay && p.After > 40*time.Millisecond && w.T.Choose("stall", 2) == 0 {
+			// shortly before the generation ends the next sender to reach its reply wait is withheld THERE
+			// (after its primary is out, before it starts waiting) until well into the next generation:
+			// when it resumes, the end of its generation and whatever the next one's peer replayed are
+			// both already there
+			w.After(p.After-time.Duration(10+w.T.Choose("stall", 3)*10)*time.Millisecond, "arm-hold", func() {
+				h.withholdGen = n // from now on this generation's peer answers no primary: they stay open and are replayed
+				w.HoldApp = func(g *simhook.G) bool { return g.App && h.inCall[g.Name] }
+				w.OnHold = func(g *simhook.G, site string, d time.Duration) {
+					h.markStalled(g.Name)
+					w.Probe("sender_held_before_its_reply_wait_across_generation_end")
+				}
+				w.HoldAt["select@hsms/connection_send.go*"] = []time.Duration{300 * time.Millisecond, time.Second, 2 * time.Second}[w.T.Choose("stall", 3)]
+			})
+		}
 		w.After(p.After, "gen-end", func() { h.endGen(k, n, c, p) })
 	})
 }
@@ -453,7 +470,7 @@ func (h *harness) onFrame(c *refhsms.Conn, f refhsms.RxFrame) {
 	h.open[c.Gen] = append(h.open[c.Gen], f)
 	tok, _ := refhsms.ParseASCII(f.Body)
 	d := h.sc.ReplyDelays[int(f.H.Sys)%len(h.sc.ReplyDelays)]
-	if d < 0 {
+	if d < 0 || c.Gen == h.withholdGen {
 		return
 	}
 	reply := func() {
